@@ -3,6 +3,9 @@
 //! the 2-thread scenarios and every schedule with at most `bound` preemptions of the 3-thread
 //! scenarios is executed by an own iterative-context-bounding depth-first scheduler; in every
 //! complete execution every thread's results are compared with the sequential reference.
+//! Every execution runs in a freshly forked process, so that ALL static state of the library (not
+//! only shuttle's lazy statics) is pristine at the start of each execution, exactly like the
+//! "fresh processes" of the property; the depth-first search state lives in the parent.
 //!
 //! usage: conc --tier quick|thorough      (writes evidence to $VERIF_EVIDENCE_OUT)
 //!        conc --replay "<scenario> <bound> <c0,c1,...>"
@@ -27,6 +30,9 @@ struct BoundedDfs {
     levels: Vec<(usize, usize)>,
     step: usize,
     preemptions: usize,
+    /// non-default choices taken at points where the running task was NOT runnable (free switches)
+    free_used: usize,
+    free_bound: usize,
     started: bool,
     /// Some(choices): replay exactly this prefix, then always choice 0, one execution only
     fixed: Option<Vec<usize>>,
@@ -40,7 +46,7 @@ struct Shared {
     executions: usize,
     max_depth: usize,
     points: u64,
-    current: Vec<usize>,
+    current: Vec<(usize, usize)>,
     capped: bool,
 }
 
@@ -58,21 +64,14 @@ impl BoundedDfs {
 
 impl Scheduler for BoundedDfs {
     fn new_execution(&mut self) -> Option<Schedule> {
+        // exactly one execution per (forked) process: every execution starts from pristine statics
         if self.started {
-            if self.fixed.is_some() {
-                return None;
-            }
-            if !self.advance() {
-                return None;
-            }
-            if self.shared.lock().unwrap().executions >= self.max_executions || self.deadline.map(|d| Instant::now() > d).unwrap_or(false) {
-                self.shared.lock().unwrap().capped = true;
-                return None;
-            }
+            return None;
         }
         self.started = true;
         self.step = 0;
         self.preemptions = 0;
+        self.free_used = 0;
         let mut s = self.shared.lock().unwrap();
         s.executions += 1;
         s.current.clear();
@@ -88,6 +87,9 @@ impl Scheduler for BoundedDfs {
         if !cur_runnable || self.preemptions < self.bound {
             let mut others: Vec<TaskId> = runnable.iter().map(|t| t.id()).filter(|id| !(cur_runnable && Some(*id) == current)).collect();
             others.sort();
+            if !cur_runnable && self.free_used >= self.free_bound {
+                others.truncate(1); // scenarios with many helper threads: only the lowest id continues
+            }
             cands.extend(others);
         }
         let idx = if let Some(fx) = &self.fixed {
@@ -105,10 +107,13 @@ impl Scheduler for BoundedDfs {
         if cur_runnable && idx > 0 {
             self.preemptions += 1;
         }
+        if !cur_runnable && idx > 0 {
+            self.free_used += 1;
+        }
         self.step += 1;
         let mut s = self.shared.lock().unwrap();
         s.points += 1;
-        s.current.push(idx);
+        s.current.push((idx, cands.len()));
         s.max_depth = s.max_depth.max(self.step);
         Some(cands[idx])
     }
@@ -133,6 +138,13 @@ fn orig(tid: usize) -> [[u8; 64]; 3] {
 }
 
 /// one (3,2) round on explicit engines: returns recovery ++ restored
+struct E2;
+impl E2 {
+    fn make2() -> Naive {
+        Naive::new()
+    }
+}
+
 fn round<E: rs_ported::engine::Engine>(e: E, e2: E, low: bool, tid: usize) -> Vec<Vec<u8>> {
     #[allow(non_snake_case)]
     let ORIG = orig(tid);
@@ -171,6 +183,26 @@ fn round<E: rs_ported::engine::Engine>(e: E, e2: E, low: bool, tid: usize) -> Ve
     };
     let want: Vec<Vec<u8>> = (0..3).filter(|i| *i != keep).map(|i| ORIG[i].to_vec()).collect();
     assert_eq!(restored, want, "decode restored wrong data");
+    // a second decode with the erasure pattern every thread shares (keep = 0): threads overlap both on
+    // equal and on different erasure patterns
+    {
+        let mut dec = HighRateDecoder::new(3, 2, 64, E2::make2(), None).unwrap();
+        let rec2: Vec<Vec<u8>> = {
+            let mut enc = HighRateEncoder::new(3, 2, 64, E2::make2(), None).unwrap();
+            for o in &ORIG {
+                enc.add_original_shard(o).unwrap();
+            }
+            let r = enc.encode().unwrap();
+            r.recovery_iter().map(|s| s.to_vec()).collect()
+        };
+        dec.add_original_shard(0, ORIG[0]).unwrap();
+        dec.add_recovery_shard(0, &rec2[0]).unwrap();
+        dec.add_recovery_shard(1, &rec2[1]).unwrap();
+        let r = dec.decode().unwrap();
+        let got: Vec<Vec<u8>> = r.restored_original_iter().map(|(_, s)| s.to_vec()).collect();
+        assert_eq!(got, vec![ORIG[1].to_vec(), ORIG[2].to_vec()], "second decode restored wrong data");
+        out.extend(got);
+    }
     out.extend(rec);
     out.extend(restored);
     out
@@ -207,6 +239,53 @@ fn body(name: &str, tid: usize) -> Vec<Vec<u8>> {
                 r.recovery_iter().map(|s| s.to_vec()).collect()
             };
             rec
+        }
+        // two rounds on one decoder whose zeroed ranges span several MiB (size-gated code paths)
+        "bigdec" => {
+            let (k, r, bytes) = (1025usize, 1024usize, 4096usize);
+            let mut out = Vec::new();
+            let mut dec = HighRateDecoder::new(k, r, bytes, Avx2::new(), None).unwrap();
+            for round in 0..2usize {
+                let data: Vec<Vec<u8>> = (0..k).map(|i| (0..bytes).map(|j| (i * 31 + j * 7 + tid * 101 + round * 59 + (i * j) % 13) as u8).collect()).collect();
+                let mut enc = HighRateEncoder::new(k, r, bytes, Avx2::new(), None).unwrap();
+                for o in &data {
+                    enc.add_original_shard(o).unwrap();
+                }
+                let rec: Vec<Vec<u8>> = enc.encode().unwrap().recovery_iter().map(|s| s.to_vec()).collect();
+                // all recovery shards plus one original; 1024 originals to restore
+                let keep = (round * 512 + tid * 17) % k;
+                dec.add_original_shard(keep, &data[keep]).unwrap();
+                for (j, s) in rec.iter().enumerate() {
+                    dec.add_recovery_shard(j, s).unwrap();
+                }
+                let res = dec.decode().unwrap();
+                let mut wrong = 0;
+                for (i, s) in res.restored_original_iter() {
+                    if s != data[i].as_slice() {
+                        wrong += 1;
+                    }
+                }
+                assert_eq!(wrong, 0, "round {round}: {wrong} of 1024 restored shards are wrong");
+                out.push(vec![round as u8, (res.restored_original_iter().count() % 251) as u8]);
+            }
+            out
+        }
+        // first use of exactly one table (and what its initialiser pulls in)
+        "force-skew" => {
+            let t = &*rs_ported::engine::tables::SKEW;
+            vec![t[..32].iter().flat_map(|x| x.to_le_bytes()).collect()]
+        }
+        "force-mul16" => {
+            let t = &*rs_ported::engine::tables::MUL16;
+            vec![t[3][1].iter().flat_map(|x| x.to_le_bytes()).collect()]
+        }
+        "force-mul128" => {
+            let t = &*rs_ported::engine::tables::MUL128;
+            vec![t[3].lo[1].to_le_bytes().to_vec()]
+        }
+        "force-logwalsh" => {
+            let t = &*rs_ported::engine::tables::LOG_WALSH;
+            vec![t[..32].iter().flat_map(|x| x.to_le_bytes()).collect()]
         }
         "nosimd" => round(NoSimd::new(), NoSimd::new(), false, tid),
         "ssse3" => round(Ssse3::new(), Ssse3::new(), true, tid),
@@ -299,10 +378,18 @@ fn scenarios(thorough: bool) -> Vec<(Scenario, Vec<usize>, usize)> {
         (s("naive-enc||oneshot", &["naive-enc", "oneshot"]), vec![0, 1, 2], 400_000),
         // first use of the NoSimd table family racing with first use of the SIMD table family
         (s("nosimd-enc||avx2-enc", &["nosimd-enc", "avx2-enc"]), if thorough { vec![0, 1, 2, 3, all] } else { vec![0, 1, 2] }, 400_000),
+        // three threads whose first use reaches three different tables (Skew/Exp-Log, Mul16, Mul128)
+        (s("naive-enc||nosimd-enc||avx2-enc", &["naive-enc", "nosimd-enc", "avx2-enc"]), if thorough { vec![0, 1, 2] } else { vec![0, 1] }, 400_000),
+        // bare first use of three / four different tables at once
+        (s("skew||logwalsh||mul16", &["force-skew", "force-logwalsh", "force-mul16"]), if thorough { vec![0, 1, 2, 3] } else { vec![0, 1, 2] }, 400_000),
+        (s("skew||mul16||mul128", &["force-skew", "force-mul16", "force-mul128"]), if thorough { vec![0, 1, 2, 3] } else { vec![0, 1] }, 400_000),
+
         (s("handover", &["handover"]), if thorough { vec![0, 1, 2, 3, all] } else { vec![0, 1, 2, 3] }, 400_000),
     ];
     if thorough {
         v.extend(vec![
+            (s("skew||mul16||mul128||logwalsh", &["force-skew", "force-mul16", "force-mul128", "force-logwalsh"]), vec![0, 1, 2], 400_000),
+            (s("bigdec||bigdec", &["bigdec", "bigdec"]), vec![0, 1], 400_000),
             (s("naive||nosimd", &["naive", "nosimd"]), vec![0, 1, 2, all], 400_000),
             (s("nosimd||avx2", &["nosimd", "avx2"]), vec![0, 1, 2, 3], 400_000),
             (s("ssse3||avx2", &["ssse3", "avx2"]), vec![0, 1, 2, 3], 400_000),
@@ -338,83 +425,211 @@ struct Outcome {
     capped: bool,
     signatures: BTreeSet<String>,
     failure: Option<(Vec<usize>, String)>,
+    machinery: Option<String>,
 }
 
-thread_local! {
-    static LAST_PANIC: std::cell::RefCell<String> = const { std::cell::RefCell::new(String::new()) };
-}
 static PANIC_MSG: Mutex<String> = Mutex::new(String::new());
 
-fn explore(sc: &Scenario, bound: usize, fixed: Option<Vec<usize>>, cap: usize, expected: &Arc<Vec<Vec<Vec<u8>>>>, deadline: Option<Instant>) -> Outcome {
-    let shared = Arc::new(Mutex::new(Shared::default()));
-    let sched = BoundedDfs { bound, levels: vec![], step: 0, preemptions: 0, started: false, fixed, shared: shared.clone(), max_executions: cap, deadline };
-    let mut cfg = shuttle::Config::new();
-    cfg.stack_size = 8 << 20; // decode keeps a 128 KiB array on the stack
-    let runner = shuttle::Runner::new(sched, cfg);
-    let sigs: Arc<Mutex<BTreeSet<String>>> = Arc::new(Mutex::new(BTreeSet::new()));
-    let sigs2 = sigs.clone();
-    let bodies = sc.bodies.clone();
-    let expected = expected.clone();
-    let _ = rs_ported::vtrace::take();
-    let res = catch_unwind(AssertUnwindSafe(|| {
-        runner.run(move || {
-            let _ = rs_ported::vtrace::take();
-            let mut hs = Vec::new();
-            for (ti, b) in bodies.iter().enumerate() {
-                let b = *b;
-                hs.push(shuttle::thread::spawn(move || if b == "handover" { handover("default", ti) } else { body(b, ti) }));
-            }
-            let outs: Vec<Vec<Vec<u8>>> = hs.into_iter().map(|h| h.join().expect("thread panicked")).collect();
-            for (i, o) in outs.iter().enumerate() {
-                assert!(o == &expected[i], "thread {i} ({}) produced results different from sequential use", bodies[i]);
-            }
-            let ev = rs_ported::vtrace::take();
-            let sig: Vec<String> = ev.iter().map(|(n, t)| format!("{}@{t}", n.trim_start_matches("initialize_"))).collect();
-            sigs2.lock().unwrap().insert(sig.join(","));
-        })
-    }));
-    let s = shared.lock().unwrap();
-    let failure = match res {
-        Ok(_) => None,
-        Err(e) => {
-            let msg = if let Some(m) = e.downcast_ref::<String>() {
+extern "C" {
+    fn fork() -> i32;
+    fn pipe(fds: *mut i32) -> i32;
+    fn waitpid(pid: i32, status: *mut i32, options: i32) -> i32;
+    fn alarm(seconds: u32) -> u32;
+    fn close(fd: i32) -> i32;
+    #[link_name = "_exit"]
+    fn libc_exit(code: i32) -> !;
+}
+
+const EXEC_TIMEOUT_S: u32 = 60;
+
+/// what one execution (in its own process) reports
+struct Exec {
+    points: Vec<(usize, usize)>,
+    signature: String,
+    failure: Option<String>,
+    outputs: Vec<Vec<Vec<u8>>>,
+}
+
+fn hexs(b: &[u8]) -> String {
+    b.iter().map(|x| format!("{x:02x}")).collect()
+}
+fn unhex(s: &str) -> Vec<u8> {
+    (0..s.len() / 2).map(|i| u8::from_str_radix(&s[2 * i..2 * i + 2], 16).unwrap()).collect()
+}
+
+/// Runs ONE execution of the scenario (or of a single body of it, for the sequential reference) in a
+/// forked child under the scheduler, following `prefix` and then always the first candidate.
+fn run_one(sc: &Scenario, bound: usize, prefix: &[usize], expected: Option<&Vec<Vec<Vec<u8>>>>, single: Option<usize>) -> Result<Exec, String> {
+    use std::io::{Read, Write};
+    use std::os::unix::io::FromRawFd;
+    let mut fds = [0i32; 2];
+    if unsafe { pipe(fds.as_mut_ptr()) } != 0 {
+        return Err("pipe() failed".into());
+    }
+    let pid = unsafe { fork() };
+    if pid < 0 {
+        return Err("fork() failed".into());
+    }
+    if pid == 0 {
+        // ---------------- child: one execution, then _exit
+        unsafe {
+            close(fds[0]);
+            alarm(EXEC_TIMEOUT_S);
+        }
+        let mut w = unsafe { std::fs::File::from_raw_fd(fds[1]) };
+        let shared = Arc::new(Mutex::new(Shared::default()));
+        let sched = BoundedDfs { bound, levels: vec![], step: 0, preemptions: 0, free_used: 0, free_bound: if sc.name.starts_with("bigdec") { 1 } else { usize::MAX }, started: false, fixed: Some(prefix.to_vec()), shared: shared.clone(), max_executions: 1, deadline: None };
+        let mut cfg = shuttle::Config::new();
+        cfg.stack_size = 8 << 20; // decode keeps a 128 KiB array on the stack
+        let runner = shuttle::Runner::new(sched, cfg);
+        let bodies: Vec<(usize, &'static str)> = match single {
+            Some(i) => vec![(i, sc.bodies[i])],
+            None => sc.bodies.iter().copied().enumerate().collect(),
+        };
+        let outs: Arc<Mutex<Vec<Vec<Vec<u8>>>>> = Arc::new(Mutex::new(Vec::new()));
+        let sig: Arc<Mutex<String>> = Arc::new(Mutex::new(String::new()));
+        let (outs2, sig2) = (outs.clone(), sig.clone());
+        let expected2: Option<Vec<Vec<Vec<u8>>>> = expected.cloned();
+        let res = catch_unwind(AssertUnwindSafe(|| {
+            runner.run(move || {
+                let _ = rs_ported::vtrace::take();
+                rs_ported::vpoint::enable(true);
+                let mut hs = Vec::new();
+                for (ti, b) in bodies.iter().copied() {
+                    hs.push(shuttle::thread::spawn(move || if b == "handover" { handover("default", ti) } else { body(b, ti) }));
+                }
+                let o: Vec<Vec<Vec<u8>>> = hs.into_iter().map(|h| h.join().expect("thread panicked")).collect();
+                if let Some(exp) = &expected2 {
+                    for (i, x) in o.iter().enumerate() {
+                        assert!(x == &exp[i], "thread {i} ({}) produced results different from sequential use", bodies[i].1);
+                    }
+                }
+                let ev = rs_ported::vtrace::take();
+                let s: Vec<String> = ev.iter().map(|(n, t)| format!("{}@{t}", n.trim_start_matches("initialize_"))).collect();
+                *sig2.lock().unwrap() = s.join(",");
+                *outs2.lock().unwrap() = o;
+                rs_ported::vpoint::enable(false);
+            })
+        }));
+        let failure = match res {
+            Ok(_) => None,
+            Err(e) => Some(if let Some(m) = e.downcast_ref::<String>() {
                 m.clone()
             } else if let Some(m) = e.downcast_ref::<&str>() {
                 m.to_string()
             } else {
-                PANIC_MSG.lock().unwrap().clone()
-            };
-            Some((s.current.clone(), msg))
+                PANIC_MSG.lock().unwrap_or_else(|e| e.into_inner()).clone()
+            }),
+        };
+        let pts = shared.lock().unwrap_or_else(|e| e.into_inner()).current.clone();
+        let mut msg = String::new();
+        msg.push_str(&format!("P {}\n", pts.iter().map(|(c, n)| format!("{c}:{n}")).collect::<Vec<_>>().join(",")));
+        msg.push_str(&format!("S {}\n", sig.lock().unwrap_or_else(|e| e.into_inner())));
+        if let Some(f) = failure {
+            msg.push_str(&format!("F {}\n", f.replace(['\n', '\r'], " ")));
         }
-    };
-    let signatures = sigs.lock().unwrap().clone();
-    Outcome { executions: s.executions, points: s.points, max_depth: s.max_depth, capped: s.capped, signatures, failure }
-}
-
-/// sequential reference: each body alone, one thread, under the same runtime
-fn sequential(sc: &Scenario) -> Vec<Vec<Vec<u8>>> {
-    let mut out = Vec::new();
-    for (ti, b) in sc.bodies.iter().enumerate() {
-        let b = *b;
-        let slot: Arc<Mutex<Vec<Vec<u8>>>> = Arc::new(Mutex::new(Vec::new()));
-        let slot2 = slot.clone();
-        let mut cfg = shuttle::Config::new();
-        cfg.stack_size = 8 << 20;
-        let shared = Arc::new(Mutex::new(Shared::default()));
-        let sched = BoundedDfs { bound: 0, levels: vec![], step: 0, preemptions: 0, started: false, fixed: Some(vec![]), shared, max_executions: 1, deadline: None };
-        shuttle::Runner::new(sched, cfg).run(move || {
-            let r = if b == "handover" { handover("default", ti) } else { body(b, ti) };
-            *slot2.lock().unwrap() = r;
-        });
-        let v = slot.lock().unwrap().clone();
-        out.push(v);
+        if expected.is_none() {
+            let o = outs.lock().unwrap_or_else(|e| e.into_inner());
+            msg.push_str(&format!("O {}\n", o.iter().map(|t| t.iter().map(|s| hexs(s)).collect::<Vec<_>>().join(";")).collect::<Vec<_>>().join("|")));
+        }
+        msg.push_str("END\n");
+        let _ = w.write_all(msg.as_bytes());
+        let _ = w.flush();
+        unsafe { libc_exit(0) };
     }
-    out
+    // ---------------- parent
+    unsafe { close(fds[1]) };
+    let mut r = unsafe { std::fs::File::from_raw_fd(fds[0]) };
+    let mut txt = String::new();
+    let _ = r.read_to_string(&mut txt);
+    let mut status = 0i32;
+    unsafe { waitpid(pid, &mut status, 0) };
+    if !txt.contains("END\n") {
+        let sig = status & 0x7f;
+        return Err(if sig == 14 { format!("execution did not terminate within {EXEC_TIMEOUT_S} s (hang or livelock not seen by the scheduler)") } else { format!("execution process died (wait status {status:#x}) without a result") });
+    }
+    let mut ex = Exec { points: vec![], signature: String::new(), failure: None, outputs: vec![] };
+    for line in txt.lines() {
+        let (tag, rest) = line.split_at(line.len().min(2));
+        match tag {
+            "P " => ex.points = rest.split(',').filter(|x| !x.is_empty()).map(|x| { let (c, n) = x.split_once(':').unwrap(); (c.parse().unwrap(), n.parse().unwrap()) }).collect(),
+            "S " => ex.signature = rest.to_string(),
+            "F " => ex.failure = Some(rest.to_string()),
+            "O " => ex.outputs = rest.split('|').map(|t| t.split(';').filter(|x| !x.is_empty()).map(unhex).collect()).collect(),
+            _ => {}
+        }
+    }
+    Ok(ex)
 }
 
-extern "C" {
-    #[link_name = "_exit"]
-    fn libc_exit(code: i32) -> !;
+/// depth-first search over schedules; the search state (`levels`) lives here, every execution in a child
+fn explore(sc: &Scenario, bound: usize, fixed: Option<Vec<usize>>, cap: usize, expected: &Arc<Vec<Vec<Vec<u8>>>>, deadline: Option<Instant>) -> Outcome {
+    let mut o = Outcome { executions: 0, points: 0, max_depth: 0, capped: false, signatures: BTreeSet::new(), failure: None, machinery: None };
+    let mut levels: Vec<(usize, usize)> = Vec::new();
+    let one_shot = fixed.is_some();
+    loop {
+        let prefix: Vec<usize> = match &fixed {
+            Some(f) => f.clone(),
+            None => levels.iter().map(|l| l.0).collect(),
+        };
+        match run_one(sc, bound, &prefix, Some(expected), None) {
+            Err(died) => {
+                o.executions += 1;
+                o.failure = Some((prefix, died));
+                return o;
+            }
+            Ok(ex) => {
+                o.executions += 1;
+                o.points += ex.points.len() as u64;
+                o.max_depth = o.max_depth.max(ex.points.len());
+                if !one_shot {
+                    for (i, l) in levels.iter().enumerate() {
+                        if ex.points.get(i) != Some(l) && ex.failure.is_none() {
+                            o.machinery = Some(format!("uncontrolled nondeterminism: scheduling point {i} of a replayed prefix offered {:?} instead of {:?}", ex.points.get(i), l));
+                            return o;
+                        }
+                    }
+                }
+                if let Some(f) = ex.failure {
+                    o.failure = Some((ex.points.iter().map(|p| p.0).collect(), f));
+                    return o;
+                }
+                o.signatures.insert(ex.signature);
+                if one_shot {
+                    return o;
+                }
+                levels = ex.points;
+                // advance to the next schedule in depth-first order
+                loop {
+                    match levels.pop() {
+                        Some((c, n)) if c + 1 < n => {
+                            levels.push((c + 1, n));
+                            break;
+                        }
+                        Some(_) => continue,
+                        None => return o, // space exhausted
+                    }
+                }
+                if o.executions >= cap || deadline.map(|d| Instant::now() > d).unwrap_or(false) {
+                    o.capped = true;
+                    return o;
+                }
+            }
+        }
+    }
+}
+
+/// sequential reference: each body alone, one thread, under the same runtime, each in its own process
+fn sequential(sc: &Scenario) -> Result<Vec<Vec<Vec<u8>>>, String> {
+    let mut out = Vec::new();
+    for i in 0..sc.bodies.len() {
+        let ex = run_one(sc, 0, &[], None, Some(i))?;
+        if let Some(f) = ex.failure {
+            return Err(format!("sequential reference run of body {} failed: {f}", sc.bodies[i]));
+        }
+        out.push(ex.outputs.into_iter().next().unwrap_or_default());
+    }
+    Ok(out)
 }
 
 fn jstr(s: &str) -> String {
@@ -445,7 +660,7 @@ fn main() {
         let sc = scenario_by_name(p[0]);
         let bound: usize = if p[1] == "all" { usize::MAX } else { p[1].parse().unwrap() };
         let choices: Vec<usize> = if p.len() > 2 && p[2] != "-" { p[2].split(',').map(|x| x.parse().unwrap()).collect() } else { vec![] };
-        let expected = Arc::new(sequential(&sc));
+        let expected = Arc::new(sequential(&sc).unwrap_or_else(|e| { println!("MACHINERY-ERROR: {e}"); std::process::exit(2) }));
         let a = explore(&sc, bound, Some(choices.clone()), 1, &expected, None);
         let b = explore(&sc, bound, Some(choices), 1, &expected, None);
         let fa = a.failure.as_ref().map(|f| f.1.clone());
@@ -469,6 +684,30 @@ fn main() {
             }
         }
     }
+    if args.len() >= 3 && args[1] == "--diag-random" {
+        // DIAGNOSTIC ONLY (sampling, never evidence): random schedules of one scenario in this process
+        let sc = scenario_by_name(&args[2]);
+        let n: usize = args.get(3).and_then(|x| x.parse().ok()).unwrap_or(2000);
+        let bodies = sc.bodies.clone();
+        let mut cfg = shuttle::Config::new();
+        cfg.stack_size = 8 << 20;
+        let r = catch_unwind(AssertUnwindSafe(|| {
+            shuttle::Runner::new(shuttle::scheduler::RandomScheduler::new(n), cfg).run(move || {
+                let mut hs = Vec::new();
+                for (ti, b) in bodies.iter().copied().enumerate() {
+                    hs.push(shuttle::thread::spawn(move || if b == "handover" { handover("default", ti) } else { body(b, ti) }));
+                }
+                for h in hs {
+                    h.join().expect("thread panicked");
+                }
+            })
+        }));
+        println!("diag-random {}: failure found = {}", sc.name, r.is_err());
+        if let Err(e) = r {
+            println!("  {}", e.downcast_ref::<String>().cloned().unwrap_or_default().chars().take(300).collect::<String>());
+        }
+        return;
+    }
     if args.len() >= 3 && args[1] == "--child" {
         // one scenario, all its bounds, in an own process: a failure inside the runtime cannot
         // disturb other explorations. Prints LINE/ROW/SAMPLE/CAP/DONE/FAIL records.
@@ -476,9 +715,23 @@ fn main() {
         let (sc, bounds, cap) = scenarios(thorough).into_iter().find(|(s, _, _)| s.name == args[2]).expect("scenario");
         let budget_s: u64 = if thorough { 1500 } else { 40 };
         let t0 = Instant::now();
-        let expected = Arc::new(sequential(&sc));
+        let expected = match sequential(&sc) {
+            Ok(e) => Arc::new(e),
+            Err(e) => {
+                // the library fails even when used from one thread: report it as this scenario's failure
+                println!("FAIL\t{}-sequential\t{} 0 -\t{}", sc.name, sc.name, e.replace(['\n', '\t'], " "));
+                println!("SIGS\t0");
+                std::process::exit(0);
+            }
+        };
         let d1 = explore(&sc, 0, Some(vec![]), 1, &expected, None);
-        if d1.failure.is_none() {
+        if let Some((choices, msg)) = &d1.failure {
+            let cs = if choices.is_empty() { "-".to_string() } else { choices.iter().map(|c| c.to_string()).collect::<Vec<_>>().join(",") };
+            println!("FAIL\t{}-bound0\t{} 0 {cs}\t{}", sc.name, sc.name, msg.replace(['\n', '\t'], " "));
+            println!("SIGS\t0");
+            std::process::exit(0);
+        }
+        {
             let d2 = explore(&sc, 0, Some(vec![]), 1, &expected, None);
             if d1.signatures != d2.signatures || d1.points != d2.points || d2.failure.is_some() {
                 println!("MACH\tscenario {}: the same schedule replayed twice gave different observations", sc.name);
@@ -494,6 +747,10 @@ fn main() {
                 continue;
             }
             let o = explore(&sc, bound, None, cap, &expected, Some(t0 + std::time::Duration::from_secs(budget_s)));
+            if let Some(m) = &o.machinery {
+                println!("MACH\tscenario {} bound {bname}: {m}", sc.name);
+                std::process::exit(2);
+            }
             sc_sigs.extend(o.signatures.iter().cloned());
             println!("COUNT\t{}\t{}", o.executions, o.points);
             if o.capped {
@@ -516,8 +773,7 @@ fn main() {
                 println!("SIGS\t{}", sc_sigs.len());
                 use std::io::Write;
                 let _ = std::io::stdout().flush();
-                // leave at once: the runtime's thread-local state is not reusable after a failure
-                unsafe { libc_exit(0) };
+                std::process::exit(0);
             }
         }
         println!("SIGS\t{}", sc_sigs.len());
